@@ -6,7 +6,7 @@ import Gimli.Spec.Frame
 # Helper lemmas for C05 (CFI entries, pointers, lookup)
 -/
 namespace Gimli.CfiEntry
-open Gimli Gimli.Ints
+open Gimli Gimli.Ints Gimli.Spec.Frame
 
 /-- index-level mirror of the `while len > 1` loop of `EhHdrTable::lookup` -/
 def bsearch (key : Nat → Nat) (a : Nat) : Nat → Nat → Nat → Option Nat
@@ -543,6 +543,272 @@ theorem scan_eq_find (c : Cfg) (bases : Bases) (sec : Bytes) (a : Nat) :
       | err x => rw [hp] at h; simp at h
       | panic w => rw [hp] at h; simp at h
       | diverge => rw [hp] at h; simp at h
+
+
+/-! ### `parse_encoded_pointer` = base selection + operand + wrapping add -/
+
+theorem wrappingAddSized_ok (m : Mode) (a len size : Nat) (h1 : 1 ≤ size) (h8 : size ≤ 8) :
+    wrappingAddSized m a len size = .ok ((a + len) % 2 ^ 64 % 2 ^ (8 * size)) := by
+  unfold wrappingAddSized; rw [if_pos ⟨h1, h8⟩]
+
+theorem pep_semantics (m : Mode) (e : Endian) (enc : Nat) (p : PeParams) (r : Rd)
+    (hv : isValidEncoding enc = true) (ho : enc ≠ 0xff) (hal : peApplication enc ≠ 0x50)
+    (h1 : 1 ≤ p.asz) (h8 : p.asz ≤ 8) :
+    parseEncodedPointer m e enc p r =
+      (match neededBase enc p r.off with
+      | none => .err (missingBaseErr enc)
+      | some b => (parseEncodedValue e enc p.asz r >>= fun xr =>
+          pure (Ptr.new enc ((b + xr.1) % 2 ^ 64 % 2 ^ (8 * p.asz)), xr.2))) := by
+  obtain ⟨_, ha⟩ := validFormat hv ho
+  simp only at ha
+  unfold parseEncodedPointer
+  rw [if_neg (by simp [hv]), if_neg ho]
+  unfold pointerBase neededBase missingBaseErr
+  simp only [wrappingAddSized_ok m _ _ _ h1 h8]
+  rcases ha with ha | ha | ha | ha | ha | ha
+  · simp only [ha]
+    simp only [Out.bind_ok, if_true, Nat.zero_add]
+  · simp only [ha]
+    cases p.bases.sect <;> simp
+    all_goals rfl
+  · simp only [ha]
+    cases p.bases.text <;> simp
+    all_goals rfl
+  · simp only [ha]
+    cases p.bases.data <;> simp
+    all_goals rfl
+  · simp only [ha]
+    cases p.funcBase <;> simp
+    all_goals rfl
+  · exact absurd ha hal
+
+
+theorem lift_ok {α : Type} (f : Bytes → Out (α × Bytes)) (off : Nat) (pre rest : Bytes) (v : α)
+    (h : f (pre ++ rest) = .ok (v, rest)) :
+    (⟨off, pre ++ rest⟩ : Rd).lift f = .ok (v, ⟨off + pre.length, rest⟩) := by
+  simp only [Rd.lift, h, Out.bind_ok, Out.pure_eq, List.length_append]
+  congr 3
+  omega
+
+theorem sext8 (x : Nat) (hx : x < 2 ^ 64) : sext 8 x = x := by
+  unfold sext Ints.toSigned Leb.ofI64
+  split <;> omega
+
+theorem pev_roundtrip (e : Endian) (enc asz x off : Nat) (bytes rest : Bytes)
+    (h : encodeOperand e enc asz x = some bytes) :
+    parseEncodedValue e enc asz ⟨off, bytes ++ rest⟩ = .ok (x, ⟨off + bytes.length, rest⟩) := by
+  unfold encodeOperand at h
+  unfold parseEncodedValue
+  simp only at h ⊢
+  split at h
+  · -- absptr
+    rename_i hf
+    split at h
+    · rename_i hc
+      simp only [Option.some.injEq] at h
+      subst h
+      simp only [hf, if_true]
+      apply lift_ok
+      unfold readAddress
+      rw [if_pos hc.1]
+      exact readFixed_toBytes e asz x rest (by rw [pow256]; exact hc.2)
+    · simp at h
+  · split at h
+    · -- uleb128
+      rename_i hf0 hf
+      split at h
+      · rename_i hc
+        simp only [Option.some.injEq] at h
+        subst h
+        simp only [hf, if_true]
+        apply lift_ok
+        exact Leb.unsigned_roundtrip x hc rest
+      · simp at h
+    · split at h
+      · rename_i hf0 hf1 hf
+        split at h
+        · rename_i hc
+          simp only [Option.some.injEq] at h
+          subst h
+          simp only [hf, if_true]
+          simp only [show ¬ (2 = 0) by omega, show ¬ (2 = 1) by omega, if_false]
+          apply lift_ok
+          exact readFixed_toBytes e 2 x rest (by rw [pow256]; exact hc)
+        · simp at h
+      · split at h
+        · rename_i hf0 hf1 hf2 hf
+          split at h
+          · rename_i hc
+            simp only [Option.some.injEq] at h
+            subst h
+            simp only [hf, show ¬ (3 = 0) by omega, show ¬ (3 = 1) by omega, show ¬ (3 = 2) by omega,
+              if_true, if_false]
+            apply lift_ok
+            exact readFixed_toBytes e 4 x rest (by rw [pow256]; exact hc)
+          · simp at h
+        · split at h
+          · rename_i hf0 hf1 hf2 hf3 hf
+            split at h
+            · rename_i hc
+              simp only [Option.some.injEq] at h
+              subst h
+              simp only [hf, show ¬ (4 = 0) by omega, show ¬ (4 = 1) by omega, show ¬ (4 = 2) by omega,
+                show ¬ (4 = 3) by omega, if_true, if_false]
+              apply lift_ok
+              exact readFixed_toBytes e 8 x rest (by rw [pow256]; exact hc)
+            · simp at h
+          · split at h
+            · rename_i hf0 hf1 hf2 hf3 hf4 hf
+              split at h
+              · rename_i hc
+                simp only [Option.some.injEq] at h
+                subst h
+                simp only [hf, show ¬ (10 = 0) by omega, show ¬ (10 = 1) by omega, show ¬ (10 = 2) by omega,
+                  show ¬ (10 = 3) by omega, show ¬ (10 = 4) by omega, show ¬ (10 = 9) by omega, if_true, if_false]
+                rw [lift_ok _ _ _ _ _ (readFixed_toBytes e 2 (x % 2 ^ 16) rest
+                  (by rw [pow256]; exact Nat.mod_lt _ (by decide)))]
+                simp only [Out.bind_ok, Out.pure_eq, hc]
+              · simp at h
+            · split at h
+              · rename_i hf0 hf1 hf2 hf3 hf4 hf5 hf
+                split at h
+                · rename_i hc
+                  simp only [Option.some.injEq] at h
+                  subst h
+                  simp only [hf, show ¬ (11 = 0) by omega, show ¬ (11 = 1) by omega, show ¬ (11 = 2) by omega,
+                    show ¬ (11 = 3) by omega, show ¬ (11 = 4) by omega, show ¬ (11 = 9) by omega,
+                    show ¬ (11 = 10) by omega, if_true, if_false]
+                  rw [lift_ok _ _ _ _ _ (readFixed_toBytes e 4 (x % 2 ^ 32) rest
+                    (by rw [pow256]; exact Nat.mod_lt _ (by decide)))]
+                  simp only [Out.bind_ok, Out.pure_eq, hc]
+                · simp at h
+              · split at h
+                · rename_i hf0 hf1 hf2 hf3 hf4 hf5 hf6 hf
+                  split at h
+                  · rename_i hc
+                    simp only [Option.some.injEq] at h
+                    subst h
+                    simp only [hf, show ¬ (12 = 0) by omega, show ¬ (12 = 1) by omega, show ¬ (12 = 2) by omega,
+                      show ¬ (12 = 3) by omega, show ¬ (12 = 4) by omega, show ¬ (12 = 9) by omega,
+                      show ¬ (12 = 10) by omega, show ¬ (12 = 11) by omega, if_true, if_false]
+                    rw [lift_ok _ _ _ _ _ (readFixed_toBytes e 8 x rest (by rw [pow256]; exact hc))]
+                    simp only [Out.bind_ok, Out.pure_eq, sext8 x hc]
+                  · simp at h
+                · simp at h
+
+
+theorem pep_roundtrip (m : Mode) (e : Endian) (enc : Nat) (p : PeParams) (off x b : Nat)
+    (bytes rest : Bytes)
+    (hv : isValidEncoding enc = true) (ho : enc ≠ 0xff) (hal : peApplication enc ≠ 0x50)
+    (h1 : 1 ≤ p.asz) (h8 : p.asz ≤ 8)
+    (hb : neededBase enc p off = some b)
+    (hx : encodeOperand e enc p.asz x = some bytes) :
+    parseEncodedPointer m e enc p ⟨off, bytes ++ rest⟩ =
+      .ok (Ptr.new enc ((b + x) % 2 ^ 64 % 2 ^ (8 * p.asz)), ⟨off + bytes.length, rest⟩) := by
+  rw [pep_semantics m e enc p _ hv ho hal h1 h8]
+  simp only [hb, pev_roundtrip e enc p.asz x off bytes rest hx, Out.bind_ok, Out.pure_eq]
+
+theorem pep_missing_base (m : Mode) (e : Endian) (enc : Nat) (p : PeParams) (r : Rd)
+    (hv : isValidEncoding enc = true) (ho : enc ≠ 0xff) (hal : peApplication enc ≠ 0x50)
+    (h1 : 1 ≤ p.asz) (h8 : p.asz ≤ 8)
+    (hb : neededBase enc p r.off = none) :
+    parseEncodedPointer m e enc p r = .err (missingBaseErr enc) := by
+  rw [pep_semantics m e enc p _ hv ho hal h1 h8]
+  simp only [hb]
+
+theorem operandFor_spec (asz b t : Nat) (h8 : asz ≤ 8) (ht : t < 2 ^ (8 * asz)) :
+    (b + operandFor asz b t) % 2 ^ 64 % 2 ^ (8 * asz) = t ∧ operandFor asz b t < 2 ^ (8 * asz) := by
+  have hM : 0 < 2 ^ (8 * asz) := Nat.pow_pos (by decide)
+  have hdvd : 2 ^ (8 * asz) ∣ 2 ^ 64 := Nat.pow_dvd_pow 2 (by omega)
+  unfold operandFor
+  refine ⟨?_, Nat.mod_lt _ hM⟩
+  rw [Nat.mod_mod_of_dvd _ hdvd, Nat.add_mod, Nat.mod_mod]
+  have hbm : b % 2 ^ (8 * asz) < 2 ^ (8 * asz) := Nat.mod_lt _ hM
+  generalize b % 2 ^ (8 * asz) = c at hbm
+  generalize 2 ^ (8 * asz) = M at *
+  rw [Nat.add_mod_mod]
+  have : c + (t + M - c) = t + M := by omega
+  rw [this, Nat.add_mod_right, Nat.mod_eq_of_lt ht]
+
+
+/-- the `.eh_frame_hdr` table `h` is an index of the FDEs `fs` of the section `frame`:
+fixed-size rows, all present, sorted by initial location; row `i` points (relative to
+`eh_frame_ptr`) at an FDE `g i` of the section whose initial location is the row's key; the rows
+and `fs` list the same FDEs; FDE ranges are non-empty, do not wrap and are pairwise disjoint -/
+structure Indexes (c : Cfg) (bases : Bases) (h : Hdr) (frame : Bytes) (fs : List Fde)
+    (size : Nat) (key : Nat → Nat) (g : Nat → Fde) : Prop where
+  henc : tableEntrySize h.tableEnc = some size
+  hn : 1 ≤ h.fdeCount
+  htbl : h.fdeCount * (size * 2) ≤ h.table.bs.length
+  hbig : h.table.bs.length < 2 ^ 64
+  hkey : ∀ i, i < h.fdeCount →
+    rowKey c.m c.e h.tableEnc (h.params bases) h.table.off h.table.bs size i = .ok (.direct (key i))
+  hsorted : ∀ i j, i ≤ j → j < h.fdeCount → key i ≤ key j
+  hrow : ∀ i, i < h.fdeCount → ∃ P B, h.ehFramePtr = .direct B ∧
+    rowVal c.m c.e h.tableEnc (h.params bases) h.table.off h.table.bs size i = .ok (.direct P) ∧
+    B ≤ P ∧ fdeFromOffset c bases frame (P - B) = .ok (g i) ∧ (g i).initial = key i ∧
+    NoWrap (g i) ∧ 0 < (g i).range
+  hall : ∀ f, f ∈ fs → ∃ i, i < h.fdeCount ∧ g i = f
+  hmem : ∀ i, i < h.fdeCount → g i ∈ fs
+  hdisj : ∀ i j x, i < h.fdeCount → j < h.fdeCount →
+    covers (g i).initial (g i).range x → covers (g j).initial (g j).range x → g i = g j
+
+theorem hdrFdeForAddress_eq_find (c : Cfg) (bases : Bases) (h : Hdr) (frame : Bytes) (fs : List Fde)
+    (size : Nat) (key : Nat → Nat) (g : Nat → Fde) (a : Nat)
+    (hi : Indexes c bases h frame fs size key g) :
+    hdrFdeForAddress c bases h frame a =
+      match fs.find? (fun f => decide (covers f.initial f.range a)) with
+      | some f => .ok f
+      | none => .err .rNoUnwindInfoForAddress := by
+  obtain ⟨idx, hidx, hlk, hprop⟩ :=
+    lookup_correct c.m c.e h bases a size key hi.henc hi.hn hi.htbl hi.hbig hi.hkey hi.hsorted
+  obtain ⟨P, B, hB, hP, hBP, hfo, hinit, hnw, hpos⟩ := hi.hrow idx hidx
+  unfold hdrFdeForAddress
+  rw [hlk, hP]
+  simp only [Out.bind_ok, pointerToOffset, Ptr.toDirect, hB, hBP, if_true, Out.pure_eq, hfo,
+    contains_eq_covers c.m (g idx) a hnw]
+  by_cases hc : covers (g idx).initial (g idx).range a
+  · simp only [hc, decide_true, if_true]
+    cases hfind : fs.find? (fun f => decide (covers f.initial f.range a)) with
+    | none =>
+      rw [List.find?_eq_none] at hfind
+      have := hfind (g idx) (hi.hmem idx hidx)
+      simp [hc] at this
+    | some f' =>
+      have hm := List.mem_of_find?_eq_some hfind
+      have hcov := List.find?_some hfind
+      simp only [decide_eq_true_eq] at hcov
+      obtain ⟨j, hj, hgj⟩ := hi.hall f' hm
+      rw [← hgj] at hcov
+      have := hi.hdisj j idx a hj hidx hcov hc
+      simp only [← hgj, this]
+  · simp only [hc, decide_false, Bool.false_eq_true, if_false]
+    cases hfind : fs.find? (fun f => decide (covers f.initial f.range a)) with
+    | none => rfl
+    | some f' =>
+      exfalso
+      have hm := List.mem_of_find?_eq_some hfind
+      have hcov := List.find?_some hfind
+      simp only [decide_eq_true_eq] at hcov
+      obtain ⟨j, hj, hgj⟩ := hi.hall f' hm
+      rw [← hgj] at hcov
+      obtain ⟨P', B', _, _, _, _, hinitj, _, _⟩ := hi.hrow j hj
+      have hkj : key j ≤ a := by rw [← hinitj]; exact hcov.1
+      rcases hprop with ⟨hle, hgreat⟩ | ⟨_, hall⟩
+      · have hjk := hgreat j hj hkj
+        have h1 : covers (g j).initial (g j).range (key idx) := by
+          unfold covers at hcov ⊢
+          rw [hinitj] at hcov ⊢
+          omega
+        have h2 : covers (g idx).initial (g idx).range (key idx) := by
+          unfold covers
+          rw [hinit]
+          omega
+        have := hi.hdisj j idx (key idx) hj hidx h1 h2
+        rw [this] at hcov
+        exact hc hcov
+      · have := hall j hj
+        omega
 
 
 end Gimli.CfiEntry
